@@ -2369,11 +2369,24 @@ func (a *Agent) TaskDispatch(RequestID uint32, CommandID uint32, Parser *parser.
 				WorkingHours int32
 			)
 
-			a.Encryption.AESKey = Parser.ParseAtLeastBytes(32)
-			a.Encryption.AESIv = Parser.ParseAtLeastBytes(16)
+			var (
+				AESKey = Parser.ParseAtLeastBytes(32)
+				AESIv  = Parser.ParseAtLeastBytes(16)
+			)
 
 			if Parser.CanIRead([]parser.ReadType{parser.ReadInt32, parser.ReadBytes, parser.ReadBytes, parser.ReadBytes, parser.ReadBytes, parser.ReadBytes, parser.ReadInt32, parser.ReadInt32, parser.ReadInt32, parser.ReadInt32, parser.ReadInt32, parser.ReadInt32, parser.ReadInt32, parser.ReadInt32, parser.ReadInt32, parser.ReadInt32, parser.ReadInt32, parser.ReadInt32, parser.ReadInt64, parser.ReadInt32}) {
 				DemonID = Parser.ParseInt32()
+
+				// an agent reports its own metadata: it can not take over another id
+				if DemonID != AgentID {
+					logger.Debug(fmt.Sprintf("Agent: %x, Command: COMMAND_CHECKIN, names another agent id: %x", AgentID, DemonID))
+					teamserver.AgentConsole(a.NameID, HAVOC_CONSOLE_MESSAGE, Message)
+					return
+				}
+
+				a.Encryption.AESKey = AESKey
+				a.Encryption.AESIv = AESIv
+
 				Hostname = Parser.ParseString()
 				Username = Parser.ParseString()
 				DomainName = Parser.ParseString()
